@@ -13,11 +13,11 @@ source resolution of the feed's parser (`forml/io/dsl/parser.py` `bypass`, `visi
   `Importer.Slot.priority` / `__lt__`                  `Prio` (`inf` = explicit instance), `Prio.lt`
   `sorted(slots, reverse=True)` in `Importer.__init__` `order` (stable insertion, descending)
   `Importer.match` (loop over `self`, `MissingError`)  `select`, `importerMatch`
-  `parser.Visitor.visit_table` / `resolve_source`      `parse` on `.table`: `Except.error t` = `UnprovisionedError`
-  `parser.bypass(resolve_source)`                      `parse` on join/set/query: the wrapped visit FIRST, then
+  `parser.Visitor.visit_table` / `resolve_source`      `parseSkeleton` on `.table`: `Except.error t` = `UnprovisionedError`
+  `parser.bypass(resolve_source)`                      `parseSkeleton` on join/set/query: the wrapped visit FIRST, then
                                                        the override replaces the result
-  `parser.Visitor.visit_reference` (no override)       `parse` on `.ref`
-  "the parser reports an unprovisioned source"         `resolves S s = (parse S s).isOk`
+  `parser.Visitor.visit_reference` (no override)       `parseSkeleton` on `.ref`
+  "the parser reports an unprovisioned source"         `resolvesSkeleton S s = (parseSkeleton S s).isOk`
 
 Equality of sources inside the `frozenset` / mapping is structural here (its hash-based quirks are C08's subject).
 -/
@@ -74,36 +74,36 @@ inductive Sym where
 source t')` raised by `resolve_source` from `visit_table`.  Join/set/query are decorated with
 `bypass(resolve_source)`: the wrapped method (which descends) runs first, only then the override is looked up and
 replaces the symbol on the stack; `visit_reference` is not decorated at all. -/
-def parse (S : Sources) : Source → Except Source Sym
+def parseSkeleton (S : Sources) : Source → Except Source Sym
   | .table n fs => if adv S (.table n fs) then .ok (.native (.table n fs)) else .error (.table n fs)
   | .ref inst n =>
-    match parse S inst with
+    match parseSkeleton S inst with
     | .error t => .error t
     | .ok i => .ok (.ref i n)
   | .join l r k c =>
-    match parse S l with
+    match parseSkeleton S l with
     | .error t => .error t
     | .ok a =>
-      match parse S r with
+      match parseSkeleton S r with
       | .error t => .error t
       | .ok b => .ok (if adv S (.join l r k c) then .native (.join l r k c) else .join a b k)
   | .set l r k =>
-    match parse S l with
+    match parseSkeleton S l with
     | .error t => .error t
     | .ok a =>
-      match parse S r with
+      match parseSkeleton S r with
       | .error t => .error t
       | .ok b => .ok (if adv S (.set l r k) then .native (.set l r k) else .set a b k)
   | .query src sel pre grp post ord rows =>
-    match parse S src with
+    match parseSkeleton S src with
     | .error t => .error t
     | .ok a =>
       .ok (if adv S (.query src sel pre grp post ord rows) then .native (.query src sel pre grp post ord rows)
            else .query a)
 
 /-- the parser gets through the statement without an `UnprovisionedError` for a source -/
-def resolves (S : Sources) (s : Source) : Bool :=
-  match parse S s with
+def resolvesSkeleton (S : Sources) (s : Source) : Bool :=
+  match parseSkeleton S s with
   | .ok _ => true
   | .error _ => false
 
